@@ -29,7 +29,7 @@ class Registry:
         self.module: Module = ctx.repo.get_module(rel)
         self.name = name
         sts = self.module.assigns.get(name)
-        if not sts or not isinstance(sts[-1], ast.Assign) or not isinstance(sts[-1].value, ast.Dict):
+        if not sts or not isinstance(sts[-1], (ast.Assign, ast.AnnAssign)) or not isinstance(sts[-1].value, ast.Dict):
             raise AnalysisError(f"anchor vanished: registry dict {name} in {rel}")
         self.node: ast.Dict = sts[-1].value
         self.stmt = sts[-1]
@@ -44,7 +44,7 @@ class Registry:
         m, nm = self.module, name
         for _ in range(4):
             sts = m.assigns.get(nm)
-            if sts and isinstance(sts[-1], ast.Assign) and isinstance(sts[-1].value, ast.Constant) and isinstance(sts[-1].value.value, str):
+            if sts and isinstance(sts[-1], (ast.Assign, ast.AnnAssign)) and isinstance(sts[-1].value, ast.Constant) and isinstance(sts[-1].value.value, str):
                 return sts[-1].value.value, sts[-1]
             imp = m.imports.get(nm)
             if not imp or imp[1] in (None, "*"):
@@ -57,7 +57,7 @@ class Registry:
 
     def module_lambda(self, name: str) -> Optional[Tuple[ast.Lambda, ast.stmt]]:
         sts = self.module.assigns.get(name)
-        if sts and isinstance(sts[-1], ast.Assign) and isinstance(sts[-1].value, ast.Lambda):
+        if sts and isinstance(sts[-1], (ast.Assign, ast.AnnAssign)) and isinstance(sts[-1].value, ast.Lambda):
             return sts[-1].value, sts[-1]
         return None
 
@@ -380,7 +380,7 @@ _ASSIGN = re.compile(r"^\s*([A-Za-z_⟨⟩][\w⟨⟩]*)\s*=\s*(.+?)\s*$")
 
 
 def check_fortran_interp(template: str) -> Tuple[bool, str, dict]:
-    mh = re.search(r"function\s+([\w⟨⟩]*⟨\w+⟩[\w⟨⟩]*)\s*\(", template)
+    mh = re.search(r"function\s+((?:\w|⟨[^⟩]*⟩)*⟨[^⟩]*⟩(?:\w|⟨[^⟩]*⟩)*)\s*\(", template)
     if not mh:
         raise AnalysisError("fortran interp: `function <name>(...)` header with a name hole not found (unrecognised form)")
     text = template.replace(mh.group(1), "FNAME")
